@@ -10,8 +10,21 @@ sampling map T (result -> source) is known from its documented meaning:
   transform: returned transform == T_ref on the result grid and maps lm' back to lm
 
 T_ref is rebuilt independently (numpy only) for every op.
+
+Interpolation order: every op that takes ``order`` is driven with 0..5.  Order 0 is compared with the nearest
+source pixel, order 1 with the exact affine content, orders 2..5 with (a) SciPy's spline sampler evaluated
+directly at T_ref(p) on the source pixels (tight) and (b) the affine content itself two or more pixels away from
+the border (a spline of any order reproduces an affine ramp up to a border effect that decays geometrically).
+The content is gain * F(x) + offset with drawn gain / offset (negative values, magnitudes from 0.03 to 1000).
+
+Warp objects: warp_to_shape / warp_to_mask / transform_about_centre receive an instance of every class of the
+homogeneous family (Homogeneous, Affine, Similarity, Rotation, Translation, UniformScale, NonUniformScale and the
+five Alignment* classes fitted to inexact correspondences), 2-D and 3-D, so that a code path keyed on the class of
+the transform (not on its matrix) is reached; a pure Translation is placed so that the template lies inside the
+source with a fractional offset.
 """
 import math
+from collections import OrderedDict
 
 import numpy as np
 from hypothesis import strategies as st
@@ -21,7 +34,8 @@ from vlib import gen, objs, digest
 from vlib.tol import close, describe, maxdiff
 
 from menpo.image import Image, MaskedImage, BooleanImage
-from menpo.shape import PointCloud, TriMesh
+from menpo.shape import (PointCloud, TriMesh, PointUndirectedGraph, PointDirectedGraph, PointTree,
+                         LabelledPointUndirectedGraph)
 import menpo.transform as mt
 from menpo.transform.piecewiseaffine.base import CachedPWA, PythonPWA, TriangleContainmentError
 from menpo.transform import rbf
@@ -29,11 +43,14 @@ from menpo.transform import rbf
 PROPERTY = "C01"
 RULE = (
     "Hypothesis draws an image (class Image/MaskedImage/BooleanImage, 2-D shape 4..24 per axis or 3-D 4..9, "
-    "1-4 channels, dtype float64/float32/uint8/int32, mask all/random/blob, 0-2 landmark groups of 1-6 points as "
-    "PointCloud/PointUndirectedGraph/LabelledPointUndirectedGraph) whose pixels are the identity-coordinate image, "
-    "an op and its parameters in the documented domain. Non-trivial: the sampling map is not the identity or the "
-    "shape changes, and at least one result pixel and (if landmarks exist) one landmark passes the 'sampled inside "
-    "the source' filter decided by the reference map. Distinct = distinct canonical-JSON digest of the case."
+    "1-4 channels, dtype float64/float32/uint8/int32, content gain*F(x)+offset, mask all/random/blob, 0-2 landmark "
+    "groups of 1-6 points, some exactly on the image border, as PointCloud/PointUndirectedGraph/"
+    "LabelledPointUndirectedGraph/TriMesh/PointDirectedGraph/PointTree) whose pixels are the identity-coordinate "
+    "image, an op and its parameters in the documented domain (interpolation order 0..5, warp_landmarks on/off/default, "
+    "border mode, the warp handed over as an instance of any homogeneous-family class). Non-trivial: the sampling map "
+    "is not the identity or the shape changes, and at least one result pixel and (if landmarks exist and are warped) "
+    "one landmark passes the 'sampled inside the source' filter decided by the reference map. Distinct = distinct "
+    "canonical-JSON digest of the case."
 )
 ASSUMPTIONS = [
     "reference sampling maps follow the documented meaning of each op: rescale index-space factor (s*len-1)/(len-1); "
@@ -44,10 +61,19 @@ ASSUMPTIONS = [
     "shape rounding: when the reference value is within 1e-6 of a rounding tie either neighbouring integer is accepted",
     "TPS warps: landmark clause restricted to the spline's own control points (TPS declares has_true_inverse False)",
     "OpenCV is absent: the SciPy interpolation path is what is exercised",
-    "float tolerance 1e-9*size (float64), 2e-3 (float32), +-1 (integer dtypes, order 1)",
+    "float tolerance 1e-8*value scale (float64), 1e-4*value scale (float32), +-1 (integer dtypes, order >= 1)",
+    "orders 2..5: scipy.ndimage.map_coordinates evaluated at the reference coordinates is trusted as the spline sampler; "
+    "the affine-content comparison uses a 2 pixel border margin and a slack of 0.12*|gain| (measured border effect of a "
+    "unit ramp at distance 2: 0.041 for order 5, two ramp axes in the sum channel)",
+    "alignment warp objects: the reference map is a snapshot of the object's public h_matrix taken before the call "
+    "(the quality of the fit is not part of C01); all other classes: the matrix is rebuilt from the case",
+    "modes reflect / wrap: only pixels sampled inside the source are compared (what lies beyond the edge belongs to SciPy)",
 ]
 
-DT_TOL = {"float64": 1e-8, "float32": 5e-3, "uint8": 1.0 + 1e-9, "int32": 1.0 + 1e-9}
+# relative to the value scale |gain| * 2 * max(shape) + |offset|
+DT_RTOL = {"float64": 1e-8, "float32": 1e-4}
+SPLINE_SLACK = 0.12  # per unit gain, >= 2 px from the border, orders 2..5
+SPLINE_MARGIN = 2.0
 
 
 # ----------------------------------------------------------------------------------------------
@@ -69,10 +95,27 @@ def coord_fn(x, shape, ch):
     return np.array(out)
 
 
-def coord_pixels(shape, ch, dtype):
+def content(c, x):
+    """Source content of the case at coordinates x: gain * F(x) + offset, (ch, n)."""
+    return float(c.get("gain", 1)) * coord_fn(x, tuple(c["shape"]), c["ch"]) + float(c.get("offset", 0))
+
+
+def vscale(c):
+    return max(1.0, abs(float(c.get("gain", 1))) * 2.0 * max(c["shape"]) + abs(float(c.get("offset", 0))))
+
+
+def pix_tol(c, order):
+    """Tolerance of a pixel comparison for the case's dtype at the given interpolation order."""
+    if c["dtype"] in DT_RTOL:
+        return DT_RTOL[c["dtype"]] * vscale(c)
+    return 1e-9 if order == 0 else 1.0 + 1e-9
+
+
+def coord_pixels(c):
+    shape = tuple(c["shape"])
     idx = np.indices(shape).reshape(len(shape), -1).T
-    px = coord_fn(idx, shape, ch).reshape((ch,) + tuple(shape))
-    return px.astype(dtype)
+    px = content(c, idx).reshape((c["ch"],) + shape)
+    return px.astype(c["dtype"])
 
 
 def multilinear(pixels, pts):
@@ -108,6 +151,17 @@ def multilinear(pixels, pts):
     return out, ok
 
 
+def spline_sample(pixels, pts, order, mode, cval=0.0):
+    """SciPy's spline sampler on the SOURCE pixels at reference coordinates (orders 2..5). (ch, n)."""
+    from scipy.ndimage import map_coordinates
+
+    pts = np.asarray(pts, dtype=float)
+    out = np.empty((pixels.shape[0], pts.shape[0]), dtype=pixels.dtype)
+    for k in range(pixels.shape[0]):
+        map_coordinates(pixels[k], pts.T, order=order, mode=mode, cval=cval, output=out[k])
+    return out.astype(float)
+
+
 def corners_of(pts):
     """All integer interpolation corners of pts: (n, 2^d, d)."""
     pts = np.asarray(pts, dtype=float)
@@ -135,13 +189,30 @@ def round_set(v, mode):
 # case generation
 
 OPS_2D = [
-    "crop", "crop_to_pointcloud", "crop_to_landmarks", "crop_to_landmarks_proportion", "crop_to_true_mask",
+    "crop", "crop_to_pointcloud", "crop_to_pointcloud_proportion", "crop_to_landmarks", "crop_to_landmarks_proportion",
+    "crop_to_true_mask",
     "rescale", "rescale_to_diagonal", "rescale_to_pointcloud", "rescale_landmarks_to_diagonal_range", "resize",
     "zoom", "rotate", "mirror", "transform_about_centre",
-    "warp_affine", "warp_chain", "warp_pwa", "warp_tps", "warp_mask_affine", "warp_mask_pwa",
+    "warp_affine", "warp_affine", "warp_chain", "warp_pwa", "warp_tps", "warp_mask_affine", "warp_mask_pwa",
     "pyramid", "gaussian_pyramid",
 ]
-OPS_3D = ["crop", "crop_to_pointcloud", "rescale", "resize", "mirror", "zoom", "warp_affine", "warp_mask_affine", "pyramid"]
+OPS_3D = ["crop", "crop_to_pointcloud", "crop_to_pointcloud_proportion", "crop_to_landmarks", "crop_to_landmarks_proportion",
+          "crop_to_true_mask", "rescale", "rescale_to_diagonal", "rescale_to_pointcloud", "resize", "mirror", "zoom",
+          "transform_about_centre", "warp_affine", "warp_affine", "warp_mask_affine", "pyramid", "gaussian_pyramid"]
+
+# classes of the warp object; a pure Translation is the one a block-copy shortcut would be keyed on
+TKINDS = ["Affine", "Affine", "Homogeneous", "Similarity", "Rotation", "Translation", "Translation", "Translation",
+          "UniformScale", "NonUniformScale", "AlignmentAffine", "AlignmentAffine", "AlignmentSimilarity",
+          "AlignmentRotation", "AlignmentTranslation", "AlignmentUniformScale"]
+HAS_T = ("Affine", "Homogeneous", "Similarity", "Translation")
+LM_KINDS = ["PointCloud", "PointCloud", "PointUndirectedGraph", "LabelledPointUndirectedGraph", "TriMesh",
+            "PointDirectedGraph", "PointTree"]
+ORDERS = [1, 1, 1, 1, 0, 0, 0, 2, 3, 3, 4, 5]
+
+
+def _lm_fraction():
+    # mostly strictly inside; about one coordinate in eight exactly on the image border
+    return st.one_of(*([gen.q(0.12, 0.88, 256)] * 7 + [st.sampled_from([0.0, 1.0])]))
 
 
 @st.composite
@@ -169,23 +240,34 @@ def s_case(draw, ops=None):
         if op == "gaussian_pyramid":
             dts = ["float64"]
         c["dtype"] = draw(st.sampled_from(dts))
+        # value range of the content: beyond [0, 1], negative, tiny and large magnitudes (exact binary fractions)
+        if c["dtype"] in ("float64", "float32"):
+            c["gain"] = draw(st.sampled_from([1, 1, -1, 0.03125, 100, -7.5]))
+            c["offset"] = draw(st.sampled_from([0, 0, -50, 0.5, 1000]))
+        elif c["dtype"] == "int32":
+            c["gain"] = draw(st.sampled_from([1, -1, 3]))
+            c["offset"] = draw(st.sampled_from([0, -20, 100]))
+        else:
+            c["gain"] = draw(st.sampled_from([1, 2]))
+            c["offset"] = draw(st.sampled_from([0, 7]))
     if cls == "MaskedImage":
         c["mask"] = draw(st.sampled_from(["all", "random", "blob"]))
-    # landmarks: fractions of (shape-1), kept inside [0.12, 0.88]
+    # landmarks: fractions of (shape-1)
     need_lm = op in ("crop_to_landmarks", "crop_to_landmarks_proportion", "rescale_to_pointcloud", "rescale_landmarks_to_diagonal_range")
     k = draw(st.integers(1 if need_lm else 0, 2))
     names = draw(st.lists(st.sampled_from(["g", "PTS", "left eye", "ü"]), min_size=k, max_size=k, unique=True))
     lms = []
     for nm in names:
         n = draw(st.integers(2 if need_lm else 1, 6))
-        fr = draw(st.lists(st.lists(gen.q(0.12, 0.88, 256), min_size=ndim, max_size=ndim), min_size=n, max_size=n,
+        fr = draw(st.lists(st.lists(_lm_fraction(), min_size=ndim, max_size=ndim), min_size=n, max_size=n,
                            unique_by=lambda r: tuple(r)))
-        kind = draw(st.sampled_from(["PointCloud", "PointUndirectedGraph", "LabelledPointUndirectedGraph"]))
+        kind = draw(st.sampled_from(LM_KINDS))
         # a group's coordinates may be integer-typed (clicked pixel positions): rounded, stored as int64
         lms.append([nm, {"kind": kind, "fr": fr, "int": draw(st.sampled_from([False, False, True]))}])
     c["lms"] = lms
     c["return_transform"] = draw(st.booleans())
-    c["order"] = draw(st.sampled_from([1, 1, 0]))
+    c["order"] = draw(st.sampled_from(ORDERS))
+    c["wl"] = draw(st.sampled_from([True, True, True, False, None]))  # warp_landmarks; None = leave the default
     c["round"] = draw(st.sampled_from(["ceil", "round", "floor"]))
     # op parameters (superset; unused ones are ignored)
     c["fmin"] = draw(st.lists(gen.q(0.0, 0.45, 64), min_size=ndim, max_size=ndim))
@@ -206,11 +288,21 @@ def s_case(draw, ops=None):
     c["t"] = draw(st.lists(gen.q(-3, 3, 64), min_size=ndim, max_size=ndim))
     c["tshape"] = draw(st.lists(st.integers(3, 20 if ndim == 2 else 8), min_size=ndim, max_size=ndim))
     c["tmask"] = draw(st.sampled_from(["all", "random", "blob"]))
-    c["mode"] = draw(st.sampled_from(["constant", "nearest"]))
+    c["mode"] = draw(st.sampled_from(["constant", "constant", "constant", "nearest", "nearest", "nearest", "reflect", "wrap"]))
+    c["cval"] = draw(st.sampled_from([0, 0.5, -3]))  # only a few ops take it: keep non-zero values frequent
+    if c["cval"] and draw(st.integers(0, 3)):
+        c["mode"] = "constant"  # the fill value only matters in this mode
     c["levels"] = draw(st.integers(2, 4 if ndim == 2 else 2))
     c["downscale"] = draw(st.sampled_from([1.5, 2, 3]))
+    c["sigma"] = draw(st.sampled_from([None, None, 0.5, 0.75, 1.0]))
     c["target_pc"] = draw(st.lists(st.lists(gen.q(0, 30, 16), min_size=ndim, max_size=ndim), min_size=3, max_size=5,
                                    unique_by=lambda r: tuple(r)))
+    # the class of the warp object and its placement parameters
+    c["tkind"] = draw(st.sampled_from(TKINDS))
+    c["tfr"] = draw(st.lists(gen.q(0.0, 1.0, 64), min_size=ndim, max_size=ndim))   # where a pure translation puts the template
+    c["sfr"] = draw(st.lists(gen.q(0.3, 1.25, 64), min_size=ndim, max_size=ndim))  # template extent / source extent (pure scales)
+    c["spill"] = draw(st.sampled_from([False, False, True]))                     # let a translated template leave the source
+    c["hw"] = draw(st.sampled_from([1.0, 1.0, 2.5, -2.0]))                        # overall scale of a Homogeneous matrix
     # warp control points (PWA / TPS), as fractions
     nint = draw(st.integers(0, 3))
     c["ctrl_fr"] = draw(st.lists(st.lists(gen.q(0.2, 0.8, 64), min_size=2, max_size=2), min_size=nint, max_size=nint,
@@ -222,8 +314,35 @@ def s_case(draw, ops=None):
     c["bary"] = draw(objs.bary_picks(nb, nb))
     c["bary2"] = draw(objs.bary_picks(nb, nb))  # a second group of the SAME size (same-shape arrays through one warp object)
     c["batch"] = draw(st.sampled_from([None, None, 1, 7, 64, 257]))
-    c["as_alignment"] = draw(st.sampled_from([False, False, True]))
     return c
+
+
+def build_landmark(spec, shape):
+    """A landmark group of the drawn class at fractions of (shape - 1)."""
+    pts = np.array(spec["fr"], dtype=float) * (np.array(shape, dtype=float) - 1)
+    n = pts.shape[0]
+    kind = spec["kind"]
+    if kind == "PointCloud" or (kind == "TriMesh" and n < 3) or (kind == "PointTree" and n < 2):
+        return PointCloud(pts)
+    if kind == "TriMesh":
+        return TriMesh(pts, trilist=np.array([[i, i + 1, i + 2] for i in range(n - 2)], dtype=int))
+    und = np.zeros((n, n), dtype=int)
+    dr = np.zeros((n, n), dtype=int)
+    for i in range(n - 1):
+        und[i, i + 1] = und[i + 1, i] = 1
+        dr[i, i + 1] = 1
+    if kind == "PointUndirectedGraph":
+        return PointUndirectedGraph(pts, und)
+    if kind == "PointDirectedGraph":
+        return PointDirectedGraph(pts, dr)
+    if kind == "PointTree":
+        return PointTree(pts, dr, 0)
+    l2m = OrderedDict()
+    l2m["all"] = np.ones(n, dtype=bool)
+    first = np.zeros(n, dtype=bool)
+    first[0] = True
+    l2m["first"] = first
+    return LabelledPointUndirectedGraph(pts, und, l2m)
 
 
 def build_source(c):
@@ -232,13 +351,13 @@ def build_source(c):
     if c["cls"] == "BooleanImage":
         im = BooleanImage(objs._mask_array(c["fill"], shape, rs))
     else:
-        px = coord_pixels(shape, c["ch"], c["dtype"])
+        px = coord_pixels(c)
         if c["cls"] == "MaskedImage":
             im = MaskedImage(px, mask=objs._mask_array(c["mask"], shape, rs))
         else:
             im = Image(px)
     for nm, spec in c["lms"]:
-        g = objs.build_image_landmark(spec, shape)
+        g = build_landmark(spec, shape)
         if spec.get("int"):
             g.points = np.round(g.points).astype(np.int64)
         im.landmarks[nm] = g
@@ -246,15 +365,36 @@ def build_source(c):
 
 
 # ----------------------------------------------------------------------------------------------
+# arguments other than the image itself must come back unchanged
+
+
+class Params(object):
+    """Digest of every argument object handed to the op (template mask, transform, point cloud), compared after the
+    call with digest.parameter_mutation (lazily filled private memo slots are not a mutation)."""
+
+    def __init__(self):
+        self.items = []
+
+    def add(self, name, obj):
+        self.items.append((name, obj, digest.digest(obj)))
+        return obj
+
+    def check(self, ctx, op):
+        for name, obj, before in self.items:
+            dd = digest.parameter_mutation(before, digest.digest(obj))
+            ctx.expect(dd is None, "%s.argument_mutated.%s" % (op, name), lambda dd=dd: repr(dd))
+
+
+# ----------------------------------------------------------------------------------------------
 # reference maps.  An affine reference is (M, b): source = M @ result + b.
 
 
 class Ref(object):
-    def __init__(self, shapes=None, M=None, b=None, fn=None, inv=None, mode="constant", order=1, note=""):
+    def __init__(self, shapes=None, M=None, b=None, fn=None, inv=None, mode="constant", order=1, cval=0.0, note=""):
         self.shapes = shapes  # list of allowed sets per axis, or None (not checked)
         self.M, self.b = M, b
         self._fn, self._inv = fn, inv
-        self.mode, self.order = mode, order
+        self.mode, self.order, self.cval = mode, order, cval
 
     def to_source(self, p):
         p = np.asarray(p, dtype=float)
@@ -295,7 +435,7 @@ def rot2(theta):
     return np.array([[c, -s], [s, c]])
 
 
-def _about_centre_ref(shape, L, tvec, retain_shape, rnd, mode, order):
+def _about_centre_ref(shape, L, tvec, retain_shape, rnd, mode, order, cval=0.0):
     d = len(shape)
     c = np.asarray(shape, dtype=float) / 2.0
     L = np.asarray(L, dtype=float)
@@ -303,14 +443,14 @@ def _about_centre_ref(shape, L, tvec, retain_shape, rnd, mode, order):
     Li = np.linalg.inv(L)
     if retain_shape:
         # r = c + L (x - c) + t  ->  x = c + Li (r - c - t)
-        return Ref([{int(s)} for s in shape], Li, c - Li.dot(c + tvec), mode=mode, order=order)
+        return Ref([{int(s)} for s in shape], Li, c - Li.dot(c + tvec), mode=mode, order=order, cval=cval)
     corners = np.array([[(k >> a) & 1 for a in range(d)] for k in range(2**d)], dtype=float) * (np.asarray(shape) - 1)
     tc = (corners - c).dot(L.T) + tvec
     m = tc.min(axis=0)
     rng = tc.max(axis=0) - m
     shapes = [round_set(rng[a] + 1, rnd) for a in range(d)]
     # r = L (x - c) + t - m  ->  x = c + Li (r + m - t)
-    return Ref(shapes, Li, c + Li.dot(m - tvec), mode=mode, order=order)
+    return Ref(shapes, Li, c + Li.dot(m - tvec), mode=mode, order=order, cval=cval)
 
 
 def _tie_free(x, eps=1e-6):
@@ -319,11 +459,165 @@ def _tie_free(x, eps=1e-6):
 
 
 # ----------------------------------------------------------------------------------------------
+# warp objects of every homogeneous-family class
+
+
+def kind_linear(kind, c, d, small_rotation=False):
+    """Linear part with the structure the class `kind` can represent, from the case's well-conditioned linear map."""
+    base = kind.replace("Alignment", "")
+    lin = c["lin"]
+    if base in ("Affine", "Homogeneous"):
+        return gen.build_linear(d, lin)
+    if base == "Similarity":
+        s = float(np.prod(lin["s"]) ** (1.0 / d))
+        return s * gen.build_orthogonal(d, lin["u"])  # a reflection is a legal similarity
+    if base == "Rotation":
+        ang = lin["u"]["angles"]
+        if small_rotation:
+            ang = [a * 0.12 for a in ang]
+        return gen.rotation_from_angles(d, ang)
+    if base == "Translation":
+        return np.eye(d)
+    if base == "UniformScale":
+        return np.eye(d) * float(lin["s"][0])
+    if base == "NonUniformScale":
+        return np.diag(np.asarray(lin["s"], dtype=float))
+    raise ValueError(kind)
+
+
+def build_tobj(c, kind, L, bvec, anchors, ctx):
+    """An instance of class `kind` realising x -> L x + b ((L, b) must already have the class's structure).
+    Alignment classes are fitted to noisy correspondences anchors -> L anchors + b + noise (an inexact fit: the warp is
+    the fitted matrix, its inverse the exact inverse of that matrix) and the reference is a snapshot of h_matrix.
+    Returns (object, L_ref, b_ref)."""
+    d = L.shape[0]
+    h = np.eye(d + 1)
+    h[:d, :d] = L
+    h[:d, d] = bvec
+    if kind.startswith("Alignment"):
+        rs_ = np.random.RandomState(c["seed"] + 7)
+        sp = np.asarray(anchors, dtype=float)
+        tp = sp.dot(L.T) + bvec + (np.round(rs_.rand(*sp.shape) * 64) / 64 - 0.5) * 0.6
+        if kind == "AlignmentSimilarity":
+            t = mt.AlignmentSimilarity(PointCloud(sp), PointCloud(tp), allow_mirror=bool(np.linalg.det(L) < 0))
+        else:
+            t = getattr(mt, kind)(PointCloud(sp), PointCloud(tp))
+        hm = np.array(t.h_matrix, dtype=float)
+        hm = hm / hm[d, d]
+        ctx.event("warp object fitted (inexact alignment)")
+        return t, hm[:d, :d].copy(), hm[:d, d].copy()
+    if kind == "Homogeneous":
+        t = mt.Homogeneous(h * float(c.get("hw", 1.0)))
+    elif kind == "Affine":
+        t = mt.Affine(h)
+    elif kind == "Similarity":
+        t = mt.Similarity(h)
+    elif kind == "Rotation":
+        t = mt.Rotation(L.copy())
+    elif kind == "Translation":
+        t = mt.Translation(np.array(bvec, dtype=float))
+    elif kind == "UniformScale":
+        t = mt.UniformScale(float(L[0, 0]), d)
+    elif kind == "NonUniformScale":
+        t = mt.NonUniformScale(np.diag(L).copy())
+    else:
+        raise ValueError(kind)
+    return t, L, np.asarray(bvec, dtype=float)
+
+
+def _box_anchors(extent, centre=None):
+    """Corners of the box [0, extent] (+ its centre), optionally shifted so that `centre` is the origin."""
+    extent = np.asarray(extent, dtype=float)
+    d = extent.shape[0]
+    pts = np.array([[(k >> a) & 1 for a in range(d)] for k in range(2**d)], dtype=float) * extent
+    pts = np.vstack([pts, extent / 2.0])
+    if centre is not None:
+        pts = pts - np.asarray(centre, dtype=float)
+    return pts
+
+
+def template_to_source_map(c, kind, shape, tshape):
+    """(L, b, tshape') of a template -> source map with the structure of `kind` that lands (mostly) inside the source."""
+    d = len(shape)
+    shp = np.asarray(shape, dtype=float)
+    tshape = list(tshape)
+    base = kind.replace("Alignment", "")
+    if base == "Translation":
+        # template no larger than the source, placed fully inside at a fractional offset (unless `spill`)
+        tshape = [int(min(tshape[a], max(2, shape[a] - 1))) for a in range(d)]
+        tsh = np.asarray(tshape, dtype=float)
+        bvec = np.asarray(c["tfr"], dtype=float) * (shp - tsh)
+        if c.get("spill"):
+            bvec = bvec + np.asarray(c["t"], dtype=float)
+        return np.eye(d), bvec, tuple(tshape)
+    tsh = np.asarray(tshape, dtype=float)
+    if base in ("UniformScale", "NonUniformScale"):
+        per_axis = np.asarray(c["sfr"], dtype=float) * (shp - 1) / (tsh - 1)
+        if base == "UniformScale":
+            L = np.eye(d) * float(c["sfr"][0] * np.min((shp - 1) / (tsh - 1)))
+        else:
+            L = np.diag(per_axis)
+        return L, np.zeros(d), tuple(tshape)
+    if base == "Rotation":
+        return kind_linear(kind, c, d, small_rotation=True), np.zeros(d), tuple(tshape)
+    L = kind_linear(kind, c, d)
+    # template centre -> source centre, so that a good part of the template samples inside the source
+    tc = (tsh - 1) / 2.0
+    sc = (shp - 1) / 2.0
+    scale = min(1.0, float(np.min(shp / (tsh * 2.2))))
+    L = L * max(scale, 0.15)
+    bvec = sc - L.dot(tc) + np.array(c["t"], dtype=float) * 0.3
+    return L, bvec, tuple(tshape)
+
+
+# ----------------------------------------------------------------------------------------------
 # the generic comparison
 
 
+def _landmark_structure_diff(a, b):
+    """Everything the public API shows of a landmark group except its points (class, connectivity, labels, root)."""
+    va, vb = digest.public_view(a), digest.public_view(b)
+    va = dict((k, v) for k, v in va.items() if k != "points")
+    vb = dict((k, v) for k, v in vb.items() if k != "points")
+    return digest.state_diff(va, vb, memo_tolerant=True)
+
+
+def _pixel_clause(ctx, c, src, res_pixels, gi, srcp, inside, ref, sig):
+    """Result pixels (at integer result positions gi, sampled at source coordinates srcp) against the reference for
+    the interpolation order.  Returns the number of pixels compared."""
+    order = ref.order
+    tol = pix_tol(c, order)
+    if order == 0:
+        sel = inside & _tie_free(srcp)
+        want = content(c, np.floor(srcp[sel] + 0.5))
+    elif order == 1:
+        sel = inside
+        want = content(c, srcp[sel])
+    else:
+        # (a) the spline sampler itself at the reference coordinates
+        sel = inside if ref.mode != "nearest" else np.all(np.isfinite(srcp), axis=1)
+        want = spline_sample(src.pixels, srcp[sel], order, ref.mode, ref.cval)
+    got = res_pixels[(slice(None),) + tuple(gi[sel].T)].astype(float)
+    n = int(sel.sum())
+    if n:
+        ctx.expect(bool(np.all(np.abs(got - want) <= tol)), sig("pixels"),
+                   lambda: "order=%d dtype=%s %d px\n%s" % (order, c["dtype"], n, describe(got, want)))
+    if order >= 2:
+        # (b) the affine content survives a spline of any order away from the border
+        hi = np.asarray(c["shape"], dtype=float) - 1
+        deep = np.all((srcp >= SPLINE_MARGIN) & (srcp <= hi - SPLINE_MARGIN), axis=1)
+        if deep.any():
+            got2 = res_pixels[(slice(None),) + tuple(gi[deep].T)].astype(float)
+            want2 = content(c, srcp[deep])
+            tol2 = tol + SPLINE_SLACK * abs(float(c.get("gain", 1)))
+            ctx.expect(bool(np.all(np.abs(got2 - want2) <= tol2)), sig("pixels.spline_content"),
+                       lambda: "order=%d dtype=%s %d px >= %g px from the border\n%s" % (
+                           order, c["dtype"], int(deep.sum()), SPLINE_MARGIN, describe(got2, want2)))
+    return n
+
+
 def compare(ctx, c, src, src_digest_before, res, ref, tr=None, tag="", lm_override=None, check_landmarks=True,
-            pixel_margin_extra=0.0, pix_tol_extra=0.0):
+            pixel_margin_extra=0.0, pix_tol_extra=0.0, warped_landmarks=True):
     op = c["op"]
     shape = tuple(c["shape"])
     d = len(shape)
@@ -331,8 +625,6 @@ def compare(ctx, c, src, src_digest_before, res, ref, tr=None, tag="", lm_overri
 
     # ---- class
     want_cls = {"Image": Image, "MaskedImage": MaskedImage, "BooleanImage": BooleanImage}[c["cls"]]
-    if op in ("warp_mask_affine", "warp_mask_pwa") and c["cls"] == "Image":
-        want_cls = MaskedImage  # documented: Image.warp_to_mask returns a MaskedImage
     ctx.expect(type(res) is want_cls, sig("result_class"), "%s -> %s" % (c["cls"], type(res).__name__))
     # ---- shape
     if ref.shapes is not None:
@@ -347,32 +639,30 @@ def compare(ctx, c, src, src_digest_before, res, ref, tr=None, tag="", lm_overri
         grid = grid[:: int(math.ceil(grid.shape[0] / 1500.0))]
     srcp = ref.to_source(grid)
     hi = np.asarray(shape, dtype=float) - 1
-    margin = (1e-6 if ref.mode == "constant" else -1e-9) + pixel_margin_extra
+    margin = (1e-6 if ref.mode != "nearest" else -1e-9) + pixel_margin_extra
     inside = np.all((srcp >= margin) & (srcp <= hi - margin), axis=1)
+    far_out = np.any((srcp < -1.0) | (srcp > hi + 1.0), axis=1)
     gi = grid.astype(int)
     n_checked = 0
     # ---- pixels
     if c["cls"] != "BooleanImage":
-        tol = DT_TOL[c["dtype"]] * (max(shape) if c["dtype"] == "float64" else 1.0) + pix_tol_extra
-        if ref.order == 1:
-            sel = inside
-            want = coord_fn(srcp[sel], shape, c["ch"])
+        if pixel_margin_extra or pix_tol_extra:
+            # smoothed content (gaussian pyramid): order-1 sampling of the ramp, away from the filter's border effect
+            got = res.pixels[(slice(None),) + tuple(gi[inside].T)].astype(float)
+            want = content(c, srcp[inside])
+            n_checked = int(inside.sum())
+            if n_checked:
+                ctx.expect(maxdiff(got, want) <= pix_tol(c, 1) + pix_tol_extra, sig("pixels"),
+                           lambda: "%d px\n%s" % (n_checked, describe(got, want)))
         else:
-            sel = inside & _tie_free(srcp)
-            want = coord_fn(np.floor(srcp[sel] + 0.5), shape, c["ch"])
-            if c["dtype"] in ("uint8", "int32", "float64"):
-                tol = 1e-9 + pix_tol_extra
-        got = res.pixels[(slice(None),) + tuple(gi[sel].T)].astype(float)
-        n_checked = int(sel.sum())
-        if n_checked:
-            if c["dtype"] in ("uint8", "int32") and ref.order == 1:
-                # integer output of order-1 interpolation: truncation/rounding of the exact value
-                ok = np.all(np.abs(got - want) <= tol)
-            else:
-                ok = maxdiff(got, want) <= tol
-            ctx.expect(ok, sig("pixels"), lambda: "order=%d dtype=%s %d px\n%s" % (ref.order, c["dtype"], n_checked, describe(got, want)))
-        if isinstance(res, MaskedImage) and op in ("warp_mask_affine", "warp_mask_pwa"):
-            pass
+            n_checked = _pixel_clause(ctx, c, src, res.pixels, gi, srcp, inside, ref, sig)
+        if ref.mode == "constant" and far_out.any():
+            # documented: cval is the value outside the image boundaries
+            out = res.pixels[(slice(None),) + tuple(gi[far_out].T)].astype(float)
+            ctx.expect(bool(np.all(out == float(ref.cval))), sig("pixels.outside_not_cval"),
+                       lambda: "cval=%r, %d of %d values sampled > 1px outside the source differ" % (
+                           ref.cval, int((out != float(ref.cval)).sum()), out.size))
+
     # ---- mask / boolean pixels
     def mask_clause(res_mask, src_mask, what):
         tf = _tie_free(srcp)
@@ -382,15 +672,15 @@ def compare(ctx, c, src, src_digest_before, res, ref, tr=None, tag="", lm_overri
             idx = np.clip(idx, 0, np.asarray(shape) - 1)
             want = src_mask[tuple(idx[sel].T)]
         else:
-            far_out = np.any((srcp < -1.0) | (srcp > hi + 1.0), axis=1)
             sel_in = tf & inside
             want_in = src_mask[tuple(idx[sel_in].T)]
             got_in = res_mask[tuple(gi[sel_in].T)]
             ctx.expect(np.array_equal(got_in, want_in), sig(what + ".inside"),
                        lambda: "%d of %d mask pixels differ" % (int((got_in != want_in).sum()), got_in.size))
-            got_out = res_mask[tuple(gi[far_out].T)]
-            ctx.expect(not got_out.any(), sig(what + ".outside_not_false"),
-                       lambda: "%d result pixels sampled > 1px outside the source are True" % int(got_out.sum()))
+            if ref.mode == "constant":  # whatever the pixel fill value: no source pixel, nothing valid
+                got_out = res_mask[tuple(gi[far_out].T)]
+                ctx.expect(not got_out.any(), sig(what + ".outside_not_false"),
+                           lambda: "%d result pixels sampled > 1px outside the source are True" % int(got_out.sum()))
             return int(sel_in.sum())
         got = res_mask[tuple(gi[sel].T)]
         ctx.expect(np.array_equal(got, want), sig(what + ".nearest"),
@@ -399,7 +689,7 @@ def compare(ctx, c, src, src_digest_before, res, ref, tr=None, tag="", lm_overri
 
     if c["cls"] == "BooleanImage" and isinstance(res, BooleanImage):
         n_checked += mask_clause(res.pixels[0], src.pixels[0], "boolean_pixels")
-    if c["cls"] == "MaskedImage" and isinstance(res, MaskedImage) and op not in ("warp_mask_affine", "warp_mask_pwa"):
+    if c["cls"] == "MaskedImage" and isinstance(res, MaskedImage):
         n_checked += mask_clause(res.mask.pixels[0], src.mask.pixels[0], "mask")
 
     # ---- returned transform agrees with the reference on the result grid
@@ -415,74 +705,94 @@ def compare(ctx, c, src, src_digest_before, res, ref, tr=None, tag="", lm_overri
 
     # ---- landmarks
     lm_ok = 0
-    if check_landmarks:
-        src_names = list(src.landmarks.keys()) if src.has_landmarks else []
-        res_names = list(res.landmarks.keys()) if res.has_landmarks else []
-        ctx.expect(src_names == res_names, sig("landmark_groups"), "source groups %r, result groups %r" % (src_names, res_names))
-        for nm in src_names:
-            if nm not in res_names:
-                continue
-            a, b = src.landmarks[nm], res.landmarks[nm]
-            ctx.expect(type(a) is type(b), sig("landmark_class"), "%s -> %s" % (type(a).__name__, type(b).__name__))
-            if a.n_points != b.n_points:
-                ctx.fail(sig("landmark_count"), "%d -> %d" % (a.n_points, b.n_points))
-                continue
-            # structure other than points carried unchanged
-            da = digest.digest(a, skip=(".points",))
-            db = digest.digest(b, skip=(".points",))
-            ctx.expect(digest.digest_diff(da, db) is None, sig("landmark_structure"), lambda: repr(digest.digest_diff(da, db)))
-            lm = a.points
-            if lm_override is not None and nm in lm_override:
-                keep = lm_override[nm]
-            else:
-                keep = np.ones(lm.shape[0], dtype=bool)
-            want_lm = ref.to_result(lm[keep])
-            ctx.expect(close(b.points[keep], want_lm, atol=1e-6 * max(shape)), sig("landmarks.position"),
-                       lambda: "group %r\n%s" % (nm, describe(b.points[keep], want_lm)))
-            if tr is not None:
-                back = tr.apply(b.points[keep])
-                ctx.expect(close(back, lm[keep], atol=1e-6 * max(shape)), sig("returned_transform.landmarks"),
-                           lambda: describe(back, lm[keep]))
-            # metamorphic statement of the property: sampling the result at the returned landmark gives
-            # the value the source had at the original landmark
-            if c["cls"] != "BooleanImage" and ref.order == 1 and c["dtype"] in ("float64", "float32") and not tag.startswith(".gauss"):
-                lmr = b.points[keep]
-                inside_res = np.all((lmr >= 0) & (lmr <= np.asarray(rshape) - 1), axis=1)
-                cor = corners_of(lmr)  # (n, 2^d, d)
-                cs = ref.to_source(cor.reshape(-1, d)).reshape(cor.shape)
-                cin = np.all((cs >= margin) & (cs <= hi - margin), axis=(1, 2))
-                valid = inside_res & cin
-                if valid.any():
-                    got, okc = multilinear(res.pixels, lmr[valid])
-                    want = coord_fn(lm[keep][valid], shape, c["ch"])
-                    sel = okc
-                    if sel.any():
-                        tol = (1e-7 if c["dtype"] == "float64" else 5e-3) * max(shape) + pix_tol_extra
-                        if ref._fn is not None:
-                            # non-affine warp: between grid points the result interpolates the *map* linearly;
-                            # the measured slack |F(sum_c w_c T(c)) - F(T(lm'))| is computed from the transform,
-                            # not from the image
-                            pv = lmr[valid]
-                            lo = np.floor(pv)
-                            fr = pv - lo
-                            interp = np.zeros_like(pv)
-                            for ci in range(2 ** d):
-                                bits = np.array([(ci >> a) & 1 for a in range(d)], dtype=float)
-                                w = np.prod(np.where(bits == 1, fr, 1 - fr), axis=1)
-                                interp += w[:, None] * ref.to_source(lo + bits)
-                            slack = np.abs(coord_fn(interp, shape, c["ch"]) - coord_fn(ref.to_source(pv), shape, c["ch"])).max()
-                            tol = tol + float(slack)
-                        ctx.expect(maxdiff(got[:, sel], want[:, sel]) <= tol, sig("landmarks.pixel_registration"),
-                                   lambda: "group %r\n%s" % (nm, describe(got[:, sel], want[:, sel])))
-                        lm_ok += int(sel.sum())
-            else:
-                lm_ok += int(keep.sum())
+    if check_landmarks and not warped_landmarks:
+        # warp_landmarks=False (or a default of False): the result carries no landmarks at all
+        ctx.expect(not res.has_landmarks, sig("landmarks_present_without_warp_landmarks"),
+                   lambda: "groups %r" % (list(res.landmarks.keys()),))
+    elif check_landmarks:
+        lm_ok = _landmark_clause(ctx, c, src, res, ref, tr, sig, lm_override, margin, pix_tol_extra)
     # ---- source untouched
     dd = digest.parameter_mutation(src_digest_before, digest.digest(src))
     ctx.expect(dd is None, sig("source_mutated"), lambda: repr(dd))
-    nontrivial = (not ref.is_identity() or tuple(rshape) != shape) and n_checked > 0 and (lm_ok > 0 or not src.has_landmarks or not check_landmarks)
+    lm_fine = lm_ok > 0 or not src.has_landmarks or not check_landmarks or not warped_landmarks
+    nontrivial = (not ref.is_identity() or tuple(rshape) != shape) and n_checked > 0 and lm_fine
     ctx.nontrivial(nontrivial)
     return n_checked
+
+
+def _landmark_clause(ctx, c, src, res, ref, tr, sig, lm_override, margin, pix_tol_extra, pixel_registration=True):
+    """Groups, classes, structure, positions, returned transform and the metamorphic statement of the property itself
+    (sampling the result at the returned landmark gives the value the source had at the original landmark)."""
+    shape = tuple(c["shape"])
+    d = len(shape)
+    hi = np.asarray(shape, dtype=float) - 1
+    rshape = res.shape
+    lm_ok = 0
+    src_names = list(src.landmarks.keys()) if src.has_landmarks else []
+    res_names = list(res.landmarks.keys()) if res.has_landmarks else []
+    ctx.expect(src_names == res_names, sig("landmark_groups"), "source groups %r, result groups %r" % (src_names, res_names))
+    for nm in src_names:
+        if nm not in res_names:
+            continue
+        a, b = src.landmarks[nm], res.landmarks[nm]
+        ctx.expect(type(a) is type(b), sig("landmark_class"), "%s -> %s" % (type(a).__name__, type(b).__name__))
+        if a.n_points != b.n_points:
+            ctx.fail(sig("landmark_count"), "%d -> %d" % (a.n_points, b.n_points))
+            continue
+        # structure other than points carried unchanged
+        sd = _landmark_structure_diff(a, b)
+        ctx.expect(sd is None, sig("landmark_structure"), lambda sd=sd: repr(sd))
+        lm = a.points
+        if lm_override is not None and nm in lm_override:
+            keep = lm_override[nm]
+        else:
+            keep = np.ones(lm.shape[0], dtype=bool)
+        want_lm = ref.to_result(lm[keep])
+        ctx.expect(close(b.points[keep], want_lm, atol=1e-6 * max(shape)), sig("landmarks.position"),
+                   lambda: "group %r\n%s" % (nm, describe(b.points[keep], want_lm)))
+        if tr is not None:
+            back = tr.apply(b.points[keep])
+            ctx.expect(close(back, lm[keep], atol=1e-6 * max(shape)), sig("returned_transform.landmarks"),
+                       lambda: describe(back, lm[keep]))
+        # metamorphic statement of the property: sampling the result at the returned landmark gives
+        # the value the source had at the original landmark
+        if (pixel_registration and c["cls"] != "BooleanImage" and ref.order >= 1 and c["dtype"] in ("float64", "float32")
+                and isinstance(res, Image)):
+            m = margin if ref.order == 1 else max(margin, SPLINE_MARGIN)
+            lmr = np.asarray(b.points[keep], dtype=float)
+            inside_res = np.all((lmr >= 0) & (lmr <= np.asarray(rshape) - 1), axis=1)
+            cor = corners_of(lmr)  # (n, 2^d, d)
+            cs = ref.to_source(cor.reshape(-1, d)).reshape(cor.shape)
+            cin = np.all((cs >= m) & (cs <= hi - m), axis=(1, 2))
+            valid = inside_res & cin
+            if valid.any():
+                got, okc = multilinear(res.pixels, lmr[valid])
+                want = content(c, np.asarray(lm[keep], dtype=float)[valid])
+                sel = okc
+                if sel.any():
+                    tol = 10 * pix_tol(c, 1) + pix_tol_extra
+                    if ref.order >= 2:
+                        tol += SPLINE_SLACK * abs(float(c.get("gain", 1)))
+                    if ref._fn is not None:
+                        # non-affine warp: between grid points the result interpolates the *map* linearly;
+                        # the measured slack |F(sum_c w_c T(c)) - F(T(lm'))| is computed from the transform,
+                        # not from the image
+                        pv = lmr[valid]
+                        lo = np.floor(pv)
+                        fr = pv - lo
+                        interp = np.zeros_like(pv)
+                        for ci in range(2 ** d):
+                            bits = np.array([(ci >> a_) & 1 for a_ in range(d)], dtype=float)
+                            w = np.prod(np.where(bits == 1, fr, 1 - fr), axis=1)
+                            interp += w[:, None] * ref.to_source(lo + bits)
+                        slack = np.abs(content(c, interp) - content(c, ref.to_source(pv))).max()
+                        tol = tol + float(slack)
+                    ctx.expect(maxdiff(got[:, sel], want[:, sel]) <= tol, sig("landmarks.pixel_registration"),
+                               lambda: "group %r order %d\n%s" % (nm, ref.order, describe(got[:, sel], want[:, sel])))
+                    lm_ok += int(sel.sum())
+        else:
+            lm_ok += int(keep.sum())
+    return lm_ok
 
 
 # ----------------------------------------------------------------------------------------------
@@ -497,11 +807,20 @@ def _call(f, c, **kw):
     return f(**kw), None
 
 
-def _warp_kwargs(c, src):
-    kw = {}
+def _opt(c, kw, order=True, default_wl=True):
+    """Add the optional keywords the case varies: order (not for BooleanImage) and warp_landmarks.
+    Returns (kw, effective order, landmarks expected in the result)."""
+    eff_order = 0
     if c["cls"] != "BooleanImage":
-        kw["order"] = c["order"]
-    return kw
+        eff_order = 1
+        if order:
+            kw["order"] = c["order"]
+            eff_order = c["order"]
+    warped = default_wl
+    if c["wl"] is not None:
+        kw["warp_landmarks"] = c["wl"]
+        warped = bool(c["wl"])
+    return kw, eff_order, warped
 
 
 def _pwa_points(c, tshape):
@@ -521,8 +840,11 @@ def c_case(c, ctx):
     ctx.event("dtype=%s" % c["dtype"])
     src = build_source(c)
     before = digest.digest(src)
-    order = c["order"] if c["cls"] != "BooleanImage" else 0
     shp = np.asarray(shape, dtype=float)
+    params = Params()
+    # direct calls of MaskedImage.warp_to_shape / warp_to_mask default to warp_landmarks=False
+    direct_default_wl = c["cls"] != "MaskedImage"
+    cval = c["cval"] if (c["cls"] in ("Image", "MaskedImage") and c["dtype"] in ("float64", "float32")) else 0
 
     if op == "crop":
         mn = np.array(c["fmin"]) * shp
@@ -531,11 +853,18 @@ def c_case(c, ctx):
             mn, mx = np.floor(mn), np.ceil(mx)
         res, tr = _call(src.crop, c, min_indices=mn, max_indices=mx)
         compare(ctx, c, src, before, res, _crop_ref(shape, mn, mx), tr)
-    elif op == "crop_to_pointcloud":
-        pc = PointCloud(np.array([np.array(c["fmin"]) * (shp - 1), np.array(c["fmax"]) * (shp - 1)]))
-        b = c["boundary"]
-        res, tr = _call(src.crop_to_pointcloud, c, pointcloud=pc, boundary=b)
-        compare(ctx, c, src, before, res, _crop_ref(shape, pc.points.min(0) - b, pc.points.max(0) + b), tr)
+    elif op in ("crop_to_pointcloud", "crop_to_pointcloud_proportion"):
+        pc = params.add("pointcloud", PointCloud(np.array([np.array(c["fmin"]) * (shp - 1), np.array(c["fmax"]) * (shp - 1)])))
+        pts = pc.points.copy()
+        if op == "crop_to_pointcloud":
+            b = c["boundary"]
+            res, tr = _call(src.crop_to_pointcloud, c, pointcloud=pc, boundary=b)
+        else:
+            rng = pts.max(0) - pts.min(0)
+            b = c["proportion"] * (rng.min() if c["minimum"] else rng.max())
+            res, tr = _call(src.crop_to_pointcloud_proportion, c, pointcloud=pc, boundary_proportion=c["proportion"],
+                            minimum=c["minimum"])
+        compare(ctx, c, src, before, res, _crop_ref(shape, pts.min(0) - b, pts.max(0) + b), tr)
     elif op in ("crop_to_landmarks", "crop_to_landmarks_proportion"):
         g = c["lms"][0][0]
         pts = np.asarray(src.landmarks[g].points, dtype=float)
@@ -569,43 +898,46 @@ def c_case(c, ctx):
             s = np.asarray(scale if isinstance(scale, list) else [scale] * d, dtype=float)
             if np.any(s * shp < 2):
                 return
-            kw = dict(scale=scale, round=rnd)
-            if c["cls"] != "BooleanImage":
-                kw["order"] = order
+            kw, order, warped = _opt(c, dict(scale=scale, round=rnd))
             res, tr = _call(src.rescale, c, **kw)
             ref = _rescale_ref(shape, s, rnd, order)
         elif op == "rescale_to_diagonal":
-            s = c["diag"] / math.sqrt(sum(x * x for x in shape))
+            diag = c["diag"]
+            if d == 3:
+                # keep volumes small: the target diagonal is 0.5 .. 2.2 times the present one
+                diag = math.sqrt(sum(x * x for x in shape)) * min(2.2, max(0.5, c["diag"] / 24.0))
+            s = diag / math.sqrt(sum(x * x for x in shape))
             if np.any(s * shp < 2):
                 return
-            res, tr = _call(src.rescale_to_diagonal, c, diagonal=c["diag"], round=rnd)
-            ref = _rescale_ref(shape, s, rnd, 1 if c["cls"] != "BooleanImage" else 0)
+            kw, order, warped = _opt(c, dict(diagonal=diag, round=rnd), order=False)
+            res, tr = _call(src.rescale_to_diagonal, c, **kw)
+            ref = _rescale_ref(shape, s, rnd, order)
         elif op == "rescale_to_pointcloud":
             g = c["lms"][0][0]
             pts = src.landmarks[g].points
             tgt = np.array(c["target_pc"], dtype=float)[:, :d]
+            if d == 3:
+                tgt = tgt * 0.25  # volumes are small (4..9 per axis): keep the fitted scale mostly below 2.5
             n = min(len(tgt), len(pts))
             if n < 2:
                 return
             # rescale_to_pointcloud needs a target with as many points as the group: rebuild the group
             src.landmarks[g] = PointCloud(pts[:n])
             before = digest.digest(src)
-            pts, tgt = pts[:n], tgt[:n]
+            pts, tgt = np.asarray(pts[:n], dtype=float), tgt[:n]
             ns = np.linalg.norm(pts - pts.mean(0))
             nt = np.linalg.norm(tgt - tgt.mean(0))
             if ns < 1e-3 or nt < 1e-3:
                 return
             s = nt / ns
-            if np.any(s * shp < 2) or s > 4:
+            if np.any(s * shp < 2) or s > (4 if d == 2 else 2.5):
                 return
-            kw = dict(pointcloud=PointCloud(tgt), group=g, round=rnd)
-            if c["cls"] != "BooleanImage":
-                kw["order"] = order
+            kw, order, warped = _opt(c, dict(pointcloud=params.add("pointcloud", PointCloud(tgt)), group=g, round=rnd))
             res, tr = _call(src.rescale_to_pointcloud, c, **kw)
             ref = _rescale_ref(shape, s, rnd, order)
         elif op == "rescale_landmarks_to_diagonal_range":
             g = c["lms"][0][0]
-            pts = src.landmarks[g].points
+            pts = np.asarray(src.landmarks[g].points, dtype=float)
             rng = pts.max(0) - pts.min(0)
             dr = math.sqrt(float((rng**2).sum()))
             if dr < 1e-3:
@@ -613,112 +945,105 @@ def c_case(c, ctx):
             s = c["diag"] / dr
             if np.any(s * shp < 2) or s > 4:
                 return
-            kw = dict(diagonal_range=c["diag"], group=g, round=rnd)
-            if c["cls"] != "BooleanImage":
-                kw["order"] = order
+            kw, order, warped = _opt(c, dict(diagonal_range=c["diag"], group=g, round=rnd))
             res, tr = _call(src.rescale_landmarks_to_diagonal_range, c, **kw)
             ref = _rescale_ref(shape, s, rnd, order)
         else:
             ns = np.asarray(c["new_shape"], dtype=float)
             s = ns / shp
-            kw = dict(shape=tuple(c["new_shape"]))
-            if c["cls"] != "BooleanImage":
-                kw["order"] = order
+            kw, order, warped = _opt(c, dict(shape=tuple(c["new_shape"])))
             res, tr = _call(src.resize, c, **kw)
             ref = _rescale_ref(shape, s, "round", order)
             ref.shapes = [{int(x)} for x in c["new_shape"]]
-        compare(ctx, c, src, before, res, ref, tr)
+        ctx.event("order=%d" % order)
+        compare(ctx, c, src, before, res, ref, tr, warped_landmarks=warped)
     elif op == "zoom":
         z = c["zoom"]
-        kw = {}
-        if c["cls"] != "BooleanImage":
-            kw["order"] = order
-        res, tr = _call(src.zoom, c, scale=z, **kw)
+        kw, order, warped = _opt(c, dict(scale=z))
+        res, tr = _call(src.zoom, c, **kw)
         cen = shp / 2.0
         ref = Ref([{int(s)} for s in shape], np.eye(d) / z, cen - cen / z, mode="nearest", order=order)
-        compare(ctx, c, src, before, res, ref, tr)
+        ctx.event("order=%d" % order)
+        compare(ctx, c, src, before, res, ref, tr, warped_landmarks=warped)
     elif op in ("rotate", "transform_about_centre"):
+        retain = bool(c["retain_shape"]) or d != 2  # re-framing to the transformed bounding box is 2-D only
         if op == "rotate":
             th = math.radians(c["theta"])
             L, tvec = rot2(th), np.zeros(2)
             kw = dict(theta=c["theta"] if c["degrees"] else th, degrees=c["degrees"])
             f = src.rotate_ccw_about_centre
         else:
-            L = gen.build_linear(2, c["lin"])
-            tvec = np.array(c["t"], dtype=float) if c["retain_shape"] else np.zeros(2)
-            h = np.eye(3)
-            h[:2, :2] = L
-            h[:2, 2] = tvec
-            kw = dict(transform=mt.Affine(h))
+            kind = c["tkind"]
+            L = kind_linear(kind, c, d)
+            tvec = np.array(c["t"], dtype=float) if kind.replace("Alignment", "") in HAS_T else np.zeros(d)
+            # forward map about the centre: anchors are the image corners relative to the centre
+            t, L, tvec = build_tobj(c, kind, L, tvec, _box_anchors(shp - 1, centre=shp / 2.0), ctx)
+            ctx.event("about_centre transform=%s" % kind)
+            kw = dict(transform=params.add("transform", t))
             f = src.transform_about_centre
-        kw.update(retain_shape=c["retain_shape"], round=c["round"], mode=c["mode"])
-        if c["cls"] != "BooleanImage":
-            kw["order"] = order
+        kw.update(retain_shape=retain, round=c["round"], mode=c["mode"])
+        if cval:
+            kw["cval"] = cval
+        kw, order, warped = _opt(c, kw)
         res, tr = _call(f, c, **kw)
-        ref = _about_centre_ref(shape, L, tvec, c["retain_shape"], c["round"], c["mode"], order)
-        ctx.event("retain_shape=%s" % c["retain_shape"])
-        compare(ctx, c, src, before, res, ref, tr)
+        ref = _about_centre_ref(shape, L, tvec, retain, c["round"], c["mode"], order, cval)
+        ctx.event("retain_shape=%s" % retain)
+        ctx.event("order=%d" % order)
+        compare(ctx, c, src, before, res, ref, tr, warped_landmarks=warped)
     elif op == "mirror":
         ax = c["axis"]
-        kw = {}
-        if c["cls"] != "BooleanImage":
-            kw["order"] = order
-        res, tr = _call(src.mirror, c, axis=ax, **kw)
+        kw, order, warped = _opt(c, dict(axis=ax))
+        res, tr = _call(src.mirror, c, **kw)
         M = np.eye(d)
         M[ax, ax] = -1
         b = np.zeros(d)
         b[ax] = shape[ax] - 1
-        compare(ctx, c, src, before, res, Ref([{int(s)} for s in shape], M, b, mode="nearest", order=order), tr)
+        ctx.event("order=%d" % order)
+        compare(ctx, c, src, before, res, Ref([{int(s)} for s in shape], M, b, mode="nearest", order=order), tr,
+                warped_landmarks=warped)
     elif op in ("warp_affine", "warp_chain", "warp_mask_affine"):
-        tshape = tuple(c["tshape"])
-        L = gen.build_linear(d, c["lin"])
-        # template centre -> source centre, so that a good part of the template samples inside the source
-        tc = (np.asarray(tshape, dtype=float) - 1) / 2.0
-        sc = (shp - 1) / 2.0
-        scale = min(1.0, float(np.min(shp / (np.asarray(tshape) * 2.2))))
-        L = L * max(scale, 0.15)
-        bvec = sc - L.dot(tc) + np.array(c["t"], dtype=float) * 0.3
-        h = np.eye(d + 1)
-        h[:d, :d] = L
-        h[:d, d] = bvec
-        if op == "warp_affine" and c.get("as_alignment") and d == 2:
-            # the same kind of map handed over as an AlignmentAffine object fitted to inexact correspondences (more than
-            # d+1 noisy point pairs): the warp is the fitted matrix, its inverse the exact inverse of that matrix
-            rs_ = np.random.RandomState(c["seed"] + 7)
-            sp = np.array([[0.0, 0.0], [0.0, tshape[1] - 1.0], [tshape[0] - 1.0, 0.0], [tshape[0] - 1.0, tshape[1] - 1.0], list(tc)])
-            tp = sp.dot(L.T) + bvec + (np.round(rs_.rand(5, 2) * 64) / 64 - 0.5) * 0.6
-            al = mt.AlignmentAffine(PointCloud(sp), PointCloud(tp))
-            L = np.array(al.h_matrix[:d, :d], dtype=float)
-            bvec = np.array(al.h_matrix[:d, d], dtype=float)
-            ctx.event("warp given as AlignmentAffine (inexact fit)")
+        kind = "Affine" if op == "warp_chain" else c["tkind"]
+        L, bvec, tshape = template_to_source_map(c, kind, shape, c["tshape"])
+        tsh = np.asarray(tshape, dtype=float)
+        kw, order, warped = _opt(c, dict(mode=c["mode"], batch_size=c.get("batch")), default_wl=direct_default_wl)
+        if cval:
+            kw["cval"] = cval
         if op == "warp_chain":
-            # a TransformChain has no pseudoinverse, so it can only warp an image without landmarks
-            for nm in list(src.landmarks.keys()):
-                del src.landmarks[nm]
-            before = digest.digest(src)
+            # a TransformChain has no pseudoinverse, so it can only warp an image without landmarks - or with
+            # landmarks that are not to be warped
+            if warped:
+                for nm in list(src.landmarks.keys()):
+                    del src.landmarks[nm]
+                before = digest.digest(src)
             # split the affine map into two chained members
+            tc = (tsh - 1) / 2.0
+            h = np.eye(d + 1)
+            h[:d, :d] = L
+            h[:d, d] = bvec
             half = np.eye(d + 1)
             half[:d, d] = -tc
             rest = h.dot(np.linalg.inv(half))
             t = mt.TransformChain([mt.Translation(-tc), mt.Affine(rest)])
-        elif op == "warp_affine" and c.get("as_alignment") and d == 2:
-            t = al
         else:
-            t = mt.Affine(h)
-        kw = dict(transform=t, warp_landmarks=True, mode=c["mode"], batch_size=c.get("batch"))
+            t, L, bvec = build_tobj(c, kind, L, bvec, _box_anchors(tsh - 1), ctx)
+        ctx.event("warp object=%s" % type(t).__name__)
+        kw["transform"] = params.add("transform", t)
         ctx.event("batch_size=%s" % c.get("batch"))
-        if c["cls"] != "BooleanImage":
-            kw["order"] = order
+        ctx.event("order=%d" % order)
+        ref = Ref([{int(s)} for s in tshape], L, bvec, mode=c["mode"], order=order, cval=cval)
+        if kind in ("Translation", "AlignmentTranslation"):
+            inside_ = bool(np.all(bvec >= 0) and np.all(bvec + tsh - 1 <= shp - 1))
+            ctx.event("pure translation: template %s the source, fractional=%s" % (
+                "inside" if inside_ else "leaves", bool(np.any(np.abs(bvec - np.round(bvec)) > 1e-9))))
         if op == "warp_mask_affine":
             rs = np.random.RandomState(c["seed"] + 1)
-            tm = BooleanImage(objs._mask_array(c["tmask"], tshape, rs))
+            tm = params.add("template_mask", BooleanImage(objs._mask_array(c["tmask"], tshape, rs)))
+            tmask = tm.pixels[0].copy()
             res, tr = _call(src.warp_to_mask, c, template_mask=tm, **kw)
-            ref = Ref([{int(s)} for s in tshape], L, bvec, mode=c["mode"], order=order)
-            _compare_warp_to_mask(ctx, c, src, before, res, ref, tr, tm)
+            _compare_warp_to_mask(ctx, c, src, before, res, ref, tr, tmask, warped)
         else:
             res, tr = _call(src.warp_to_shape, c, template_shape=tshape, **kw)
-            ref = Ref([{int(s)} for s in tshape], L, bvec, mode=c["mode"], order=order)
-            compare(ctx, c, src, before, res, ref, tr)
+            compare(ctx, c, src, before, res, ref, tr, warped_landmarks=warped)
     elif op in ("warp_pwa", "warp_tps", "warp_mask_pwa"):
         tshape = tuple(c["tshape"])
         ctrl = _pwa_points(c, tshape)
@@ -751,16 +1076,16 @@ def c_case(c, ctx):
             src.landmarks["in_tris"] = PointCloud(objs.bary_points(tgt, tl, c["bary"]))
             src.landmarks["in_tris2"] = PointCloud(objs.bary_points(tgt, tl, c.get("bary2", c["bary"])))
         before = digest.digest(src)
-        tdig = digest.digest((t.source.points, t.target.points))
-        kw = dict(transform=t, warp_landmarks=True, mode=c["mode"], batch_size=c.get("batch"))
+        kw, order, warped = _opt(c, dict(transform=params.add("transform", t), mode=c["mode"], batch_size=c.get("batch")),
+                                 default_wl=direct_default_wl)
         ctx.event("batch_size=%s" % c.get("batch"))
-        if c["cls"] != "BooleanImage":
-            kw["order"] = order
+        ctx.event("order=%d" % order)
         # the warp itself is an input of the op; the reference evaluates a SEPARATE, cache-free instance of it
         if op == "warp_tps":
             t_ref = mt.ThinPlateSplines(PointCloud(ctrl), PointCloud(tgt), kernel=(getattr(rbf, c["rbf"])(ctrl) if c["rbf"] else None))
         else:
             t_ref = PythonPWA(PointCloud(ctrl), PointCloud(tgt))
+
         def fn(p):
             # reference evaluation; points outside the warp's domain (only interpolation corners just outside the
             # template box can be) evaluate to NaN and are thereby excluded from every "inside the source" filter
@@ -779,15 +1104,13 @@ def c_case(c, ctx):
         ref = Ref([{int(s)} for s in tshape], fn=fn, inv=inv, mode=c["mode"], order=order)
         if op == "warp_mask_pwa":
             rs = np.random.RandomState(c["seed"] + 1)
-            tm = BooleanImage(objs._mask_array(c["tmask"], tshape, rs))
+            tm = params.add("template_mask", BooleanImage(objs._mask_array(c["tmask"], tshape, rs)))
+            tmask = tm.pixels[0].copy()
             res, tr = _call(src.warp_to_mask, c, template_mask=tm, **kw)
-            _compare_warp_to_mask(ctx, c, src, before, res, ref, tr, tm)
+            _compare_warp_to_mask(ctx, c, src, before, res, ref, tr, tmask, warped)
         else:
             res, tr = _call(src.warp_to_shape, c, template_shape=tshape, **kw)
-            # non-affine warp: bilinear interpolation of the result between grid points is not exact, the
-            # slack is bounded by the map's deviation from affinity over one pixel
-            compare(ctx, c, src, before, res, ref, tr, pix_tol_extra=0.0)
-        ctx.expect(digest.digest((t.source.points, t.target.points)) == tdig, op + ".transform_mutated", "")
+            compare(ctx, c, src, before, res, ref, tr, warped_landmarks=warped)
     elif op in ("pyramid", "gaussian_pyramid"):
         ds = c["downscale"]
         # keep every level at least 3 pixels wide (rescale divides by len-1 and needs s*len >= 2)
@@ -801,8 +1124,12 @@ def c_case(c, ctx):
         sigma = ds / 3.0
         if op == "pyramid":
             levels = list(src.pyramid(n_levels=n, downscale=ds))
-        else:
+        elif c.get("sigma") is None:
             levels = list(src.gaussian_pyramid(n_levels=n, downscale=ds))
+        else:
+            sigma = float(c["sigma"])
+            levels = list(src.gaussian_pyramid(n_levels=n, downscale=ds, sigma=sigma))
+            ctx.event("sigma given")
         ctx.event("levels=%d" % n)
         if not ctx.expect(len(levels) == n, op + ".n_levels", "%d levels for n_levels=%d" % (len(levels), n)):
             return
@@ -840,81 +1167,73 @@ def c_case(c, ctx):
                            lambda: "level %d group %r\n%s" % (k, nm, describe(got_lm, want_lm)))
             if k == 1 and op == "pyramid":
                 compare(ctx, c, src, before, levels[1], ref, None, tag=".level1")
+            elif k == 1:
+                # independent pixel oracle: a Gaussian (any sigma) preserves an affine ramp farther than its kernel
+                # radius (SciPy truncates at 4 sigma) from the border; +1 for the order-1 corners of the rescale
+                radius = int(4.0 * sigma + 0.5)
+                ctx.event("gauss margin=%d" % (radius + 1))
+                compare(ctx, c, src, before, levels[1], ref, None, tag=".gauss_level1", pixel_margin_extra=float(radius + 1),
+                        pix_tol_extra=1e-9 * vscale(c))
         dd = digest.parameter_mutation(before, digest.digest(src))
         ctx.expect(dd is None, op + ".source_mutated", lambda: repr(dd))
         ctx.nontrivial(True)
     else:
         raise ValueError(op)
+    params.check(ctx, op)
 
 
-def _compare_warp_to_mask(ctx, c, src, before, res, ref, tr, tm):
+def _compare_warp_to_mask(ctx, c, src, before, res, ref, tr, tmask, warped_landmarks=True):
     """warp_to_mask: pixels under the template mask are sampled through the map, elsewhere zero;
-    the result's mask is the template mask (BooleanImage source: result pixels under the mask)."""
+    the result's mask is the template mask (BooleanImage source: a BooleanImage, False outside the template mask)."""
     op = c["op"]
     shape = tuple(c["shape"])
-    d = len(shape)
-    tmask = tm.pixels[0]
+    sig = lambda s: "%s.%s" % (op, s)  # noqa: E731
+    # documented result class: BooleanImage -> BooleanImage, Image / MaskedImage -> MaskedImage
+    want_cls = BooleanImage if c["cls"] == "BooleanImage" else MaskedImage
+    ctx.expect(type(res) is want_cls, sig("result_class"), "%s -> %s" % (c["cls"], type(res).__name__))
+    if not ctx.expect(tuple(res.shape) == tuple(tmask.shape), sig("shape"), "result %r, template %r" % (res.shape, tmask.shape)):
+        return
     if isinstance(res, MaskedImage):
-        ctx.expect(np.array_equal(res.mask.pixels[0], tmask), op + ".result_mask_is_template", "")
+        ctx.expect(np.array_equal(res.mask.pixels[0], tmask), sig("result_mask_is_template"), "")
         # outside the template mask the pixels stay zero
         out = res.pixels[:, ~tmask]
-        ctx.expect(not np.any(out), op + ".outside_template_not_zero", lambda: "max |value| %r" % np.abs(out).max())
-    # pixel / landmark clauses on the masked positions only: emulate by comparing through `compare` with a
-    # reference restricted to template-true positions
-    class MaskedRef(Ref):
-        pass
-
+        ctx.expect(not np.any(out), sig("outside_template_not_zero"), lambda: "max |value| %r" % np.abs(out).max())
+    elif isinstance(res, BooleanImage):
+        out = res.pixels[0][~tmask]
+        ctx.expect(not out.any(), sig("outside_template_not_false"), lambda: "%d True pixels outside the template mask" % int(out.sum()))
+    # pixel / landmark clauses on the masked positions only
     idx = np.argwhere(tmask).astype(float)
     if idx.shape[0] == 0:
         return
     srcp = ref.to_source(idx)
     hi = np.asarray(shape, dtype=float) - 1
-    margin = 1e-6 if ref.mode == "constant" else -1e-9
+    margin = 1e-6 if ref.mode != "nearest" else -1e-9
     inside = np.all((srcp >= margin) & (srcp <= hi - margin), axis=1)
     gi = idx.astype(int)
     n_checked = 0
     if c["cls"] != "BooleanImage":
-        if ref.order == 1:
-            sel = inside
-            want = coord_fn(srcp[sel], shape, c["ch"])
-            tol = DT_TOL[c["dtype"]] * (max(shape) if c["dtype"] == "float64" else 1.0)
-        else:
-            sel = inside & _tie_free(srcp)
-            want = coord_fn(np.floor(srcp[sel] + 0.5), shape, c["ch"])
-            tol = 1e-9 if c["dtype"] != "float32" else 5e-3
-        got = res.pixels[(slice(None),) + tuple(gi[sel].T)].astype(float)
-        n_checked = int(sel.sum())
-        if n_checked:
-            ctx.expect(np.all(np.abs(got - want) <= tol), op + ".pixels", lambda: describe(got, want))
+        n_checked = _pixel_clause(ctx, c, src, res.pixels, gi, srcp, inside, ref, sig)
     else:
         sel = inside & _tie_free(srcp)
         ii = np.floor(srcp[sel] + 0.5).astype(int)
         want = src.pixels[0][tuple(ii.T)]
         got = res.pixels[0][tuple(gi[sel].T)]
         n_checked = int(sel.sum())
-        ctx.expect(np.array_equal(got, want), op + ".boolean_pixels", lambda: "%d differ" % int((got != want).sum()))
+        ctx.expect(np.array_equal(got, want), sig("boolean_pixels"), lambda: "%d differ" % int((got != want).sum()))
     # landmarks + returned transform + non mutation
     lm_ok = 0
     names = list(src.landmarks.keys()) if src.has_landmarks else []
-    rnames = list(res.landmarks.keys()) if res.has_landmarks else []
-    ctx.expect(names == rnames, op + ".landmark_groups", "%r vs %r" % (names, rnames))
-    for nm in names:
-        if nm not in rnames:
-            continue
-        a, b = src.landmarks[nm], res.landmarks[nm]
-        ctx.expect(type(a) is type(b), op + ".landmark_class", "")
-        want_lm = ref.to_result(a.points)
-        ctx.expect(close(b.points, want_lm, atol=1e-6 * max(shape)), op + ".landmarks.position", lambda: describe(b.points, want_lm))
-        if tr is not None:
-            back = tr.apply(b.points)
-            ctx.expect(close(back, a.points, atol=1e-6 * max(shape)), op + ".returned_transform.landmarks", lambda: describe(back, a.points))
-        lm_ok += a.n_points
+    if not warped_landmarks:
+        ctx.expect(not res.has_landmarks, sig("landmarks_present_without_warp_landmarks"),
+                   lambda: "groups %r" % (list(res.landmarks.keys()),))
+    else:
+        lm_ok = _landmark_clause(ctx, c, src, res, ref, tr, sig, None, margin, 0.0, pixel_registration=False)
     if tr is not None:
         sub = idx[:: max(1, idx.shape[0] // 40)]
-        ctx.expect(close(tr.apply(sub), ref.to_source(sub), atol=1e-6 * max(shape)), op + ".returned_transform.grid", "")
+        ctx.expect(close(tr.apply(sub), ref.to_source(sub), atol=1e-6 * max(shape)), sig("returned_transform.grid"), "")
     dd = digest.parameter_mutation(before, digest.digest(src))
-    ctx.expect(dd is None, op + ".source_mutated", lambda: repr(dd))
-    ctx.nontrivial(n_checked > 0 and (lm_ok > 0 or not names))
+    ctx.expect(dd is None, sig("source_mutated"), lambda: repr(dd))
+    ctx.nontrivial(n_checked > 0 and (lm_ok > 0 or not names or not warped_landmarks))
 
 
 CLAUSES = [
